@@ -114,24 +114,16 @@ pub fn c10(ctx: &mut Ctx) {
         Tier::Quick => spaces.push(bytes::dev2_space(sdes_bases, B12.to_vec(), 28)),
         Tier::Thorough => spaces.push(bytes::dev2_space(sdes_bases, b26(), 48)),
     }
+    bytes::placement_bound(ctx);
+    let lim = bytes::cross_limit(ctx);
     for sp in spaces {
-        let get = &sp.get;
-        ctx.run_space(&sp.name, sp.len, |idx, l| {
-            let mut buf = Vec::with_capacity(64);
-            get(idx, &mut buf);
-            sdes_case(&buf, l);
-        });
+        sp.run(ctx, &sp.name, lim, |s, l| sdes_case(s, l));
     }
     // single chunks with more than 65 535 bytes of items (where a 16-bit sum of item lengths wraps)
     {
         let sp = bytes::giants_runs_space();
-        let get = &sp.get;
         ctx.bound("giant chunks", "6 SDES packets whose single chunk holds 258..33000 items and more than 65535 bytes (the header-only runs of the same space are outside the domain and skipped)");
-        ctx.run_space(&sp.name, sp.len, |idx, l| {
-            let mut buf = Vec::new();
-            get(idx, &mut buf);
-            sdes_case(&buf, l);
-        });
+        sp.run(ctx, &sp.name, 0, |s, l| sdes_case(s, l));
     }
     for sp in gens::sdes_spaces(ctx.tier, ctx.seed) {
         let get = &sp.get;
@@ -146,7 +138,9 @@ pub fn c10(ctx: &mut Ctx) {
             if !read::framing_defects(&img, Some(202), 4).is_empty() || read::sdes_tokenise(&img).class != SdesClass::MustAccept {
                 crate::engine::run::machinery_failure(&format!("the reference tokeniser does not classify the reference encoder's own SDES image as well-formed: {}", hex_short(&img)));
             }
-            sdes_case(&img, l);
+            let mut img = img;
+            let residue = l.residue();
+            sdes_case(crate::engine::place::place(&mut img, residue), l);
         });
     }
     // iterator call histories on chunks() and items() of the SDES members of the base set
